@@ -205,7 +205,11 @@ def r3_filter(ctx):
         eloop = enclosing(elcalls[0], ast.For)
         inside = any(fcalls[0] is x for x in ast.walk(eloop))
         args = [ast.unparse(a) for a in fcalls[0].args]
-        ok = used and not inside and len(args) == 3 and args[0] == f.params[0] and args[1] == f.params[2] and args[2] == tgt
+        # what is filtered: the spectrum variable itself, or the factory call that creates it written in place
+        a2 = fcalls[0].args[2] if len(fcalls[0].args) == 3 else None
+        src_ok = a2 is not None and (ast.unparse(a2) == tgt or (isinstance(a2, ast.Call) and isinstance(a2.func, ast.Name) and a2.func.id in
+                                                                ('create_input_spectral_information', 'carriers_to_spectral_information')))
+        ok = used and not inside and len(args) == 3 and args[0] == f.params[0] and args[1] == f.params[2] and src_ok
         ctx.check('R3.filter-once', f'{site(f, fcalls[0])} filter wiring', ok, key(f, 'wiring'),
                   'the spectrum handed to the elements is not filter_si(path, equipment, spectrum) applied once outside the element loop',
                   f'{ast.unparse(st)[:100]}')
